@@ -9,6 +9,10 @@ class Boom(Exception):
     """Injected callback failure."""
 
 
+class Interrupt(BaseException):
+    """Injected abort that is not an Exception (what Ctrl-C / sys.exit() inside a battery model raise)."""
+
+
 class SolverBoom(RuntimeError):
     """Injected solver failure."""
 
@@ -17,8 +21,9 @@ class Battery:
     """Nondeterministic battery model: every probe/deplete call returns a fresh symbolic (capacity, voltage, resistance);
     arguments are recorded; optionally raises at a given call."""
 
-    def __init__(self, ctx, K, raise_at=None, rs_zero=False, imax=None, cutoff=None):
+    def __init__(self, ctx, K, raise_at=None, rs_zero=False, imax=None, cutoff=None, exc=Boom):
         self.ctx, self.K, self.raise_at, self.rs_zero = ctx, K, raise_at, rs_zero
+        self.exc = exc
         self.imax, self.cutoff = imax, cutoff
         self.states, self.args = [], []
 
@@ -39,14 +44,14 @@ class Battery:
 
     def pfunc(self):
         if self.raise_at == "probe":
-            raise Boom("probe failed")
+            raise self.exc("probe failed")
         return self._fresh(0)
 
     def dfunc(self, t, i):
         k = len(self.args) + 1
         self.args.append((t, i))
         if self.raise_at == k:
-            raise Boom("deplete call %d failed" % k)
+            raise self.exc("deplete call %d failed" % k)
         if k > self.K:
             from ..core import Skip
 
@@ -178,6 +183,8 @@ PROBES = {
     "src-iload": S(N("B", "Source", only=()), N("L", "ILoad", "B", only=())),
     "src-iload-phases": S(N("B", "Source", only=()), N("L", "ILoad", "B", phases=["a", "b"], only=()), phases=["a", "b"]),
     "src-iload-sleep": S(N("B", "Source", only=()), N("L", "ILoad", "B", phases=["b"], only=("iis",)), phases=["a", "b"]),
+    # a phase in which the battery delivers exactly 0 A (the load is off and has no sleep current): the model is still stepped
+    "src-iload-off": S(N("B", "Source", only=()), N("L", "ILoad", "B", phases=["b"], only=()), phases=["a", "b"]),
     "conv-iload": S(N("B", "Source", only=()), N("C", "Converter", "B", only=()), N("L", "ILoad", "C", only=())),
     "conv-iload-phases": S(N("B", "Source", only=()), N("C", "Converter", "B", phases=["a"], only=("iis",)), N("L", "ILoad", "C", only=()), phases=["a", "b", "c"]),
 }
